@@ -14,8 +14,9 @@ func init() { register("C10", checkC10) }
 // guard kinds of the frozen guarded-by table (DESIGN §4 C10). Statistics were used only to propose
 // guards; each line was confirmed by reading the code.
 type guardSpec struct {
-	kind    string   // lock | atomic | immutable | initonce | latch | input | self
+	kind    string   // lock | lock-any | atomic | immutable | initonce | latch | input | self
 	lock    string   // for lock / latch
+	locks   []string // for lock-any: writers hold ALL of them exclusively, readers hold ANY of them
 	writers []string // for initonce: functions allowed to write
 	why     string
 }
@@ -44,9 +45,16 @@ func init() {
 	for _, f := range []string{"affinityCnt", "streamsCnt", "deCalls"} {
 		guardTable["subConnRef."+f] = guardSpec{kind: "atomic"}
 	}
-	for _, f := range []string{"subConn", "stateSignal", "refreshing", "lastResp", "refreshCnt"} {
+	for _, f := range []string{"stateSignal", "refreshing"} {
 		guardTable["subConnRef."+f] = lockG(gbmu)
 	}
+	// subConn is read by the balancer under gb.mu and by picks/completions (which must not take gb.mu on the
+	// hot path) under the slot's own lock; the refresh swap writes it holding both.
+	guardTable["subConnRef.subConn"] = guardSpec{kind: "lock-any", locks: []string{gbmu, "subConnRef.mu"}}
+	for _, f := range []string{"lastResp", "refreshCnt"} {
+		guardTable["subConnRef."+f] = lockG("subConnRef.mu")
+	}
+	guardTable["subConnRef.mu"] = guardSpec{kind: "self"}
 	for _, f := range []string{"gb", "scRefs", "log"} {
 		guardTable["gcpPicker."+f] = guardSpec{kind: "immutable"}
 	}
@@ -203,6 +211,36 @@ func checkC10(c *Ctx, w *World) {
 					g.detail = fmt.Sprintf("%s held (%s) on every call path", spec.lock, held)
 				default:
 					fail(fmt.Sprintf("guard %s not held in the required mode (certainly held: %s; entry contexts of %s: must=%s may=%s)", spec.lock, held, fname(f), lf.MustHeld[f], lf.MayHeld[f]))
+				}
+			case "lock-any":
+				g.nontrivial = true
+				all, any := true, false
+				for _, l := range spec.locks {
+					if held[l] < 2 {
+						all = false
+					}
+					if held[l] >= 1 {
+						any = true
+					}
+				}
+				switch {
+				case mode == "A":
+					fail("sync/atomic access to a field that is otherwise lock-guarded (mixed discipline)")
+				case mode == "X":
+					fail("address of a lock-guarded field escapes")
+				case fresh:
+					g.good++
+					g.detail = "object still private to its constructor"
+				case mode == "W" && all:
+					g.good++
+					g.detail = fmt.Sprintf("written with all of %v held exclusively (%s)", spec.locks, held)
+				case mode == "W":
+					fail(fmt.Sprintf("write without holding all of %v exclusively (certainly held: %s): a reader holding only one of them races with it", spec.locks, held))
+				case any:
+					g.good++
+					g.detail = fmt.Sprintf("read with one of %v held (%s); writers hold all of them", spec.locks, held)
+				default:
+					fail(fmt.Sprintf("read with none of %v held (certainly held: %s; entry contexts of %s: must=%s may=%s)", spec.locks, held, fname(f), lf.MustHeld[f], lf.MayHeld[f]))
 				}
 			case "atomic":
 				g.nontrivial = true
@@ -363,7 +401,7 @@ func checkC10(c *Ctx, w *World) {
 				if _, ok := guardTable[name]; !ok {
 					c.fail("C10.table", name, p.pos(st.Field(i).Pos()), "struct field has no declared guard in the guarded-by table")
 				} else {
-					c.okTrivial("C10.table", name, p.pos(st.Field(i).Pos()), "guard declared: "+guardTable[name].kind+" "+guardTable[name].lock)
+					c.okTrivial("C10.table", name, p.pos(st.Field(i).Pos()), "guard declared: "+guardTable[name].kind+" "+guardTable[name].lock+strings.Join(guardTable[name].locks, "|"))
 				}
 			}
 		}
